@@ -336,6 +336,7 @@ def freq_shift(z, /, shift):
 
     ix = (slice(None),) * shift.ndim + (None,) * (z.ndim - shift.ndim - 1)
     ft = (shift[ix] * z.dt).to_value(u.one)
+    nbins = (shift[ix] * len(z) / z.sample_rate).to_value(u.one)
 
     if isinstance(z.data, da.Array):
         n = da.arange(len(z), chunks=(-1,))
@@ -347,7 +348,7 @@ def freq_shift(z, /, shift):
 
     x = np.fft.fftshift(pb.fft.fft(z.data * ph, axis=0), axes=(0,))
 
-    it = np.nditer(np.broadcast_to(ft * len(x), z.sample_shape), flags=["multi_index"])
+    it = np.nditer(np.broadcast_to(nbins, z.sample_shape), flags=["multi_index"])
     for a in it:
         if a < 0:
             a = int(np.floor(a))
